@@ -138,7 +138,7 @@ def _snapshot():
     tb = getattr(m.get('athlib.hungarian_score'), '_table', None)
     out.append('none' if tb is None else ('full%d' % len(tb) if len(tb) >= len({tuple(x[:3]) for x in m['athlib.hungarian_score'].FACTORS}) else 'partial%d' % len(tb)))
     db = getattr(m.get('athlib.sportshall_score'), '_DB', None)
-    out.append('none' if not db else ('full' if len(db) >= 13 else 'partial'))
+    out.append('none' if not db else ('full%d' % len(db) if len(db) >= 13 else 'partial%d' % len(db)))
     return ','.join(out)
 
 
@@ -146,11 +146,19 @@ def _snapshot():
 LABELS = {
     'athlon': ('athlon_score.py', 0, [
         (r'^if _scoring_objects is None', 'test'), (r'^for o in _scoring_table', 'LOOP'),
-        (r'^_scoring_objects = objects\b', 'publish'), (r'^_scoring_objects = \{\}', 'pubE'),
+        (r'^_scoring_objects = objects\b', 'publish'), (r'^_scoring_objects = \{\}', 'pubE'), (r'^objects\[', 'INSERT'),
+        # as it was: `_scoring_objects[scoring_key(..)] = o` stores when scoring_key returns, i.e. within the step that
+        # starts at scoring_key's return line (the trace spec ignores that line outside the fill loop)
+        (r'^return \("%s-%s" % \(gender, event_code\)\)\.upper\(\)', 'INSERT'),
         (r'^if key not in _scoring_objects', 'look')]),
     'hungarian': ('hungarian_score.py', 1, [
         (r'^if _table is None', 'test'), (r'^for \(gender, inout, event_code, a, b, c\) in FACTORS', 'LOOP'),
-        (r'^_table = table\b', 'publish'), (r'^_table = \{\}', 'pubE'), (r'^\(a,b,c\) = tbl\[key\]', 'look')]),
+        (r'^_table = table\b', 'publish'), (r'^_table = \{\}', 'pubE'), (r'^_?table\[key\] = value', 'INSERT'),
+        (r'^\(a,b,c\) = tbl\[key\]', 'look')]),
+    # `_DB = load_data()`: the global is bound when load_data returns, i.e. within the step that starts at `return db`
+    'sportshall': ('sportshall_score.py', 2, [
+        (r'^if not _DB', 'test'), (r'^for \(code, info\) in data_by_event_code\.items\(\)', 'LOOP'),
+        (r'^return db\b', 'publish'), (r'^_DB = \{\}', 'pubE'), (r'^db\[code\] = e\b', 'INSERT'), (r'^event_info = _DB\.get', 'look')]),
 }
 
 
@@ -182,7 +190,9 @@ def model_events(group, trace, final):
             text = linecache.getline(path, int(ln)).strip()
             for p, lab in pats:
                 if re.search(p, text):
-                    label = ('fill' if publish_first else 'build') if lab == 'LOOP' else lab
+                    # publish-after-fill: the loop head is the model's `build` step, the insertion is thread-local;
+                    # publish-first (as it was): the insertion is the model's `fill` step, the loop head leaves the loop
+                    label = {'LOOP': 'fillhead' if publish_first else 'build', 'INSERT': 'fill' if publish_first else 'other'}.get(lab, lab)
                     break
         post = trace[k + 1][2] if k + 1 < len(trace) else final
         pub, n = state(post)
@@ -393,22 +403,33 @@ def run(tier):
                 rep.notes.append('%s: no execution could be mapped to model labels (source patterns not found)' % group)
                 continue
             nrows = max(e[3] for _, t in tr for e in t['events'])
+            # the as-it-was shape (the global is bound to an empty dict first) is a variant of the same model
+            publish_first = any(e[1] in ('pubE', 'fill', 'fillhead') for _, t in tr for e in t['events'])
             with open(os.path.join(specdir, 'Trace_LP_%s.cfg' % group), 'w') as f:
-                f.write('SPECIFICATION TraceSpec\nCONSTANTS\n Threads = {1, 2}\n NRows = %d\n PublishFirst = FALSE\n'
-                        'INVARIANT Accepted\nINVARIANT ObservedAtomic\nINVARIANT ObservedLinearizable\nCHECK_DEADLOCK FALSE\n' % nrows)
+                f.write('SPECIFICATION TraceSpec\nCONSTANTS\n Threads = {1, 2}\n NRows = %d\n PublishFirst = %s\n'
+                        'INVARIANT Accepted\nINVARIANT ObservedAtomic\nINVARIANT ObservedLinearizable\nCHECK_DEADLOCK FALSE\n' % (
+                            nrows, 'TRUE' if publish_first else 'FALSE'))
             pth = sc_.file('lp_%s.ndjson' % group)
             common.write_ndjson(pth, (t for _, t in tr))
             r = common.run_tlc(specdir, 'Trace_LazyPublish', 'Trace_LP_%s.cfg' % group, workers=8, env={'TRACE_FILE': pth}, heap='4g')
             rep.absorb_tlc(r, traces=len(tr))
             accepted = {pr['accepted'] for pr in r.printed if 'accepted' in pr}
+            hazard = {pr['hazard'] for pr in r.printed if 'hazard' in pr}
+            nonlin = {pr['nonlinearizable'] for pr in r.printed if 'nonlinearizable' in pr}
             rejected = [tr[k - 1][0] for k in range(1, len(tr) + 1) if k not in accepted]
-            rep.cov.setdefault('pluscal_trace_validation', {})[group] = dict(traces=len(tr), accepted=len(accepted), rejected=len(rejected),
-                                                                             rows=nrows, invariant_violated=r.violated)
-            if r.violated:
-                rep.add_drift('%s: observed execution violates %s of the PlusCal model' % (group, r.violated))
+            rep.cov.setdefault('pluscal_trace_validation', {})[group] = dict(
+                traces=len(tr), accepted=len(accepted), rejected=len(rejected), rows=nrows, variant='publish-first (as it was)' if publish_first else 'publish-after-fill',
+                half_filled_table_observable=len(hazard), modelled_caller_missed_its_row=len(nonlin))
             for q in rejected[:5]:
                 s, seg = jobs[q]
-                rep.add_drift('%s: execution under schedule %s is not a behaviour of LazyPublish (fixed variant)' % (group, seg))
+                rep.add_drift('%s: execution under schedule %s is not a behaviour of LazyPublish' % (group, seg))
+            # the model's verdict against the real answers: a modelled miss with correct real answers means the
+            # model misrepresents the code
+            for k in sorted(nonlin & accepted)[:5]:
+                q = tr[k - 1][0]
+                s, seg = jobs[q]
+                if execs[q]['results'] == s['expected']:
+                    rep.add_drift('%s: LazyPublish says a caller missed its row under schedule %s, the real calls answered correctly' % (group, seg))
         for (s, seg), ex in zip(jobs, execs):
             distinct.add((s['id'], tuple(ex['executed'])))
         rep.setcov('scenarios', len(S))
